@@ -390,6 +390,8 @@ fn corpus(sink: &mut Sink) {
     run_tree(&GTree::leaf(Document), true, &[], &[dt.clone()], sink);
     run_tree(&sub, true, &[0, 3], &[dt.clone()], sink);
     run_tree(&sub, true, &[], &[dt.clone()], sink);
+    // two prefixes bound to the root element's namespace: doctype name vs start tag
+    run_tree(&GTree::new(Document, vec![e(6, vec![GTree::leaf(Namespace(4, NS_A)), GTree::leaf(Namespace(3, NS_A))])]), true, &[], &[dt.clone()], sink);
 }
 
 /// Small-scope enumeration (tier `thorough`): every tree of at most three elements whose elements
